@@ -244,3 +244,32 @@ def single_group(text):
             return all(0 <= v <= 255 for v in codes[2:])
         return False
     return len(codes) == 1 and c in TABLE
+
+
+def complete_groups(text):
+    """True iff the setting text consists of complete groups only: no extended-colour introducer that is cut off
+    (38 / 38;5 / 38;2;r;g at the tail) or lacks its 5/2 selector.  Such a text changes meaning when another
+    setting is rendered after it in the same sequence, so it is not a well-formed setting."""
+    codes = codes_of(text)
+    if codes is None:
+        return False
+    i, n = 0, len(codes)
+    while i < n:
+        c = codes[i]
+        if c in EXT:
+            if i + 1 >= n:
+                return False
+            m = codes[i + 1]
+            if m == 5:
+                if i + 2 >= n:
+                    return False
+                i += 3
+            elif m == 2:
+                if i + 4 >= n:
+                    return False
+                i += 5
+            else:
+                return False
+        else:
+            i += 1
+    return True
